@@ -949,6 +949,33 @@ func (ev *Eval) callExpr(x *ECall) Val {
 			id := s.typeID(types.NewPointer(t))
 			return Val{Term: fmt.Sprintf("(and (not (= %s 0)) (= (ityp %s) %d))", v.Term, v.Term, id), T: boolT}
 		}
+	case "dynimpl":
+		// dynimpl(x, I): the dynamic type of interface value x implements interface I (what x.(I) tests)
+		if len(x.Args) == 2 {
+			v := ev.eval(x.Args[0])
+			tn := exprString(x.Args[1])
+			t := ev.g.parseTypeExpr(tn, ev.typePkg())
+			if t == nil {
+				ev.fail("dynimpl: unknown type %s", tn)
+			}
+			if _, isIface := types.Unalias(t).Underlying().(*types.Interface); !isIface {
+				ev.fail("dynimpl: %s is not an interface", tn)
+			}
+			fn := s.implementsFn(t)
+			return Val{Term: fmt.Sprintf("(and (not (= %s 0)) (%s (ityp %s)))", v.Term, fn, v.Term), T: boolT}
+		}
+	case "unboxptr":
+		// unboxptr(x, T): the *T held by interface value x (meaningful when isptrto(x, T))
+		if len(x.Args) == 2 {
+			v := ev.eval(x.Args[0])
+			tn := exprString(x.Args[1])
+			t := ev.g.parseTypeExpr(tn, ev.typePkg())
+			if t == nil {
+				ev.fail("unboxptr: unknown type %s", tn)
+			}
+			s.declFun("ival_Int", []string{"Int"}, "Int")
+			return Val{Term: "(ival_Int " + v.Term + ")", T: types.NewPointer(t)}
+		}
 	case "visited":
 		// visited(k): the enclosing range-over-map loop has already produced key k
 		if ev.resolve != nil && len(x.Args) == 1 {
